@@ -143,8 +143,10 @@ pub const PROFILES: &[Profile] = &[
         setup_ops: (6, 36),
         par_ops: (0, 0),
         post_ops: (0, 0),
-        fault_pct: 0,
-        fault_kinds: &[],
+        // "exactly that block is returned to the allocator, once" also when a destructor or an
+        // iterator unwinds part-way
+        fault_pct: 6,
+        fault_kinds: &[Cb::Drop, Cb::Drop, Cb::IterNext, Cb::Default],
         max_len: 40,
         families: ALL_FAM,
     },
@@ -440,7 +442,7 @@ impl<'a> G<'a> {
                 let r = self.rng.below(3);
                 // these never leave a handle (refusal) except the "either" regimes
                 match r {
-                    0 => op(OpCode::HsIter, d, n, 1 + self.rng.below(4)),
+                    0 => op(OpCode::HsIter, d, n, 1 + self.rng.below(8)),
                     1 => op(OpCode::ThinIter, d, n, 1 + self.rng.below(8)),
                     _ => {
                         let c = 3 + self.rng.below(4);
@@ -527,7 +529,8 @@ impl<'a> G<'a> {
                     _ => (OpCode::FromRaw, K::Thin),
                 };
                 self.set(s, kind, sh.alloc);
-                op(code, s, 0, 0)
+                // (trait-object casts: the slot's parity picks one of two vtable routes)
+                op(code, s, 0, if code == OpCode::FromRawAsDyn { s % 2 } else { 0 })
             }
             Union => {
                 let src = self.of_kind(lo, hi, &[K::ArcP, K::ArcQ, K::UnionP, K::UnionQ]);
@@ -894,7 +897,7 @@ pub fn generate(prof: &Profile, seed: u64, cfg_a: bool) -> Program {
     let switch_pct = *rng.pick(&[5u32, 15, 30, 50, 80]);
     let pct_depth = *rng.pick(&[0u32, 0, 0, 1, 2, 3]);
     let fault = if prof.fault_pct > 0 && rng.pct(prof.fault_pct) {
-        let all = [Cb::IterNext, Cb::IterLen, Cb::IterHint, Cb::Clone, Cb::Cmp, Cb::Hash, Cb::Fmt, Cb::Closure, Cb::Clone, Cb::Closure, Cb::Drop, Cb::Drop];
+        let all = [Cb::IterNext, Cb::IterLen, Cb::IterHint, Cb::Clone, Cb::Cmp, Cb::Hash, Cb::Fmt, Cb::Closure, Cb::Clone, Cb::Closure, Cb::Drop, Cb::Drop, Cb::Default];
         let cb = if prof.fault_kinds.is_empty() { *rng.pick(&all) } else { *rng.pick(prof.fault_kinds) };
         let mut v = vec![(cb, 1 + rng.below(6) as u32)];
         // sometimes a second fault later in the same run: the state left by the first unwinding
